@@ -18,6 +18,9 @@
                what they pass over is white space only;
      ChunkFree the results are those of the abstract meaning -- they do not depend on
                the chunking, nor on which of the three calls came before.
+     Tee       read through a bufferio.BufferInput, the calls return what the parent
+               returns and the buffer holds exactly Delivered(hist) (checked on the real
+               code; in the model it is the definition of Delivered);
    `chunks` is chosen freely at the start and never read by the abstract meaning: it is
    in the model so that every case names a chunking to be forced on the real reader.
    Variants (the code before the fixes; TLC must refute ChunkFree / InOrder on them):
